@@ -173,4 +173,16 @@ example :
     delSeq cfg [] true [.root, .file [['p']]] ws = (true, []) := by
   decide
 
+/-- **the hypothesis `hall` of `checkoutNone_safe` cannot be dropped** (the C05 known finding, as a theorem about the model):
+    a file of the directory that the old tree does not name - hidden by the caller's ignore object - whose content is in no
+    cache is gone after a completed removal of the output, without force and without an affirmative prompt. -/
+theorem checkoutNone_hidden_file_lost :
+    ∃ (cfg : Cfg) (cache : List Oid) (ws : Ws) (order : List Del) (k : Key) (f : WFile),
+      cfg.force = false ∧ cfg.prompt ≠ some true ∧ ws.lookup k = some f ∧ Del.file k ∉ order ∧
+      (checkoutNone cfg cache true ws order).1 = true ∧
+      (checkoutNone cfg cache true ws order).2.lookup k = none ∧ inCache cache f.oid = false := by
+  refine ⟨{ force := false, relink := false, prompt := none, types := [.copy] }, ["tracked"],
+    [(["a".toList], { oid := "tracked", link := .copy }), (["build.log".toList], { oid := "only-copy", link := .copy })],
+    [.root, .file ["a".toList]], ["build.log".toList], { oid := "only-copy", link := .copy }, rfl, by simp, by decide, by decide, by decide, by decide, by decide⟩
+
 end DvcData.Checkout
